@@ -222,11 +222,60 @@ class TypeCase(AbsInt):
             return ("call", f"{src(recv)}.{name}")
         return None
 
+    def _helper(self, c: ast.Call, st: TCState):
+        """A helper of the same class (self.h(...) / Class.h(...)) or a nested function that receives the message: (FuncInfo-like
+        node, parameter bound to the message) -- so that logic moved out of the loop body into a helper is still seen."""
+        if getattr(self, "_depth", 0) >= 2:
+            return None
+        target = None
+        if isinstance(c.func, ast.Attribute) and isinstance(c.func.value, ast.Name) and self.fi.cls and c.func.value.id in ("self", "cls", self.fi.cls):
+            m = self.p.lookup_method(self.fi.cls, c.func.attr)
+            if m is not None and m.qualname != self.fi.qualname:
+                target = m.node
+                skip = 0 if m.is_static else 1
+        elif isinstance(c.func, ast.Name):
+            nested = next((n for n in ast.walk(self.fi.node) if isinstance(n, ast.FunctionDef) and n.name == c.func.id and n is not self.fi.node), None)
+            if nested is not None:
+                target, skip = nested, 0
+        if target is None:
+            return None
+        params = [a.arg for a in target.args.args][skip:]
+        for i, a in enumerate(c.args):
+            if i < len(params) and self.is_msg(a, st):
+                return target, params[i]
+        for k in c.keywords:
+            if k.arg in params and self.is_msg(k.value, st):
+                return target, k.arg
+        return None
+
+    def _run_helper(self, target: ast.FunctionDef, param: str, st: TCState) -> None:
+        sub = type(self).__new__(type(self))
+        sub.__dict__.update(self.__dict__)
+        AbsInt.__init__(sub)
+        sub.msg_names = {param}
+        sub.type_vars = set()
+        sub._depth = getattr(self, "_depth", 0) + 1
+        exits = sub.run_body(target.body, TCState())
+        acc = None
+        for k, s_ in exits:
+            if k in ("end", "return"):
+                acc = s_ if acc is None else join_states(acc, s_)
+        if acc is None:
+            return
+        # sequential composition: the helper's event intervals are added to the caller's
+        for ev, (lo, hi) in acc.counts.items():
+            l0, h0 = st.counts.get(ev, (0, 0))
+            st.counts[ev] = (min(l0 + lo, INF), min(h0 + hi, INF))
+
     def scan_expr(self, e: ast.AST | None, st: TCState) -> None:
         if e is None:
             return
         for n in ast.walk(e):
             if isinstance(n, ast.Call):
+                h = self._helper(n, st)
+                if h is not None:
+                    self._run_helper(h[0], h[1], st)
+                    continue
                 ev = self.event_for_call(n, st)
                 if ev is not None:
                     st.bump(ev)
